@@ -174,27 +174,17 @@ fn spell(c: &Case, pairs: &[(u8, String, String)]) -> Vec<String> {
     out
 }
 
-fn expected_json(c: &Case) -> Value {
+type RangeResult = std::collections::BTreeMap<chrono::NaiveDate, std::collections::BTreeMap<islamic_prayer_times::Prayer, Result<islamic_prayer_times::PrayerTime, ()>>>;
+
+/// the library's range result for the case's method, location and dates
+fn expected_result(c: &Case) -> RangeResult {
     let params = Params::new(METHODS[eff_method(c)]);
     let mut site = c.site;
     if !c.pass_elevation {
         site.elev = F(0.0);
     }
     let end = c.start + chrono::Duration::days(eff_len(c) - 1);
-    let map = prayer_times_dt_rng(&params, site.location(), &DateRange::from(c.start..=end));
-    let mut root = serde_json::Map::new();
-    for (d, times) in map.iter() {
-        let mut m = serde_json::Map::new();
-        for (i, p) in PRAYERS.iter().enumerate() {
-            let v = match times[p] {
-                Ok(pt) => json!({"Ok": {"time": pt.time.format("%H:%M:%S").to_string(), "extreme": pt.extreme}}),
-                Err(()) => json!({"Err": null}),
-            };
-            m.insert(PRAYER_NAMES[i].to_string(), v);
-        }
-        root.insert(d.format("%Y-%m-%d").to_string(), Value::Object(m));
-    }
-    Value::Object(root)
+    prayer_times_dt_rng(&params, site.location(), &DateRange::from(c.start..=end))
 }
 
 fn check_listing(c: &Case, stdout: &[u8]) -> Result<(), Failure> {
@@ -487,20 +477,22 @@ fn check_case(c0: &Case, st: &mut Stats, dir: &Path) -> Result<(), Failure> {
     }
     let out_a_bytes = if c.out_file {
         let bytes = std::fs::read(&out_a).map_err(|e| Failure::new("output-file-missing", "-o writes the file", e.to_string()))?;
-        let got: Value = serde_json::from_slice(&bytes).map_err(|e| Failure::new("output-not-json", "JSON output", e.to_string()))?;
-        let want = expected_json(c);
+        // "decodes to exactly the library's range result": decoded with the library's own Deserialize (the textual form
+        // of the file is the library's business), compared as values
+        let _: Value = serde_json::from_slice(&bytes).map_err(|e| Failure::new("output-not-json", "JSON output", e.to_string()))?;
+        let got: RangeResult = serde_json::from_slice(&bytes)
+            .map_err(|e| Failure::new("output-does-not-decode", "JSON output that decodes to the library's range result type", format!("{} ({})", e, cmdline(&args))))?;
+        let want = expected_result(c);
         if got != want {
             // find the first differing date for the report
             let mut detail = String::new();
-            if let (Some(g), Some(w)) = (got.as_object(), want.as_object()) {
-                if g.len() != w.len() {
-                    detail = format!("{} dates instead of {}", g.len(), w.len());
-                } else {
-                    for (k, wv) in w {
-                        if g.get(k) != Some(wv) {
-                            detail = format!("{}: tool {} | library {}", k, g.get(k).map(|x| x.to_string()).unwrap_or("missing".into()), wv);
-                            break;
-                        }
+            if got.len() != want.len() {
+                detail = format!("{} dates instead of {}", got.len(), want.len());
+            } else {
+                for (k, wv) in want.iter() {
+                    if got.get(k) != Some(wv) {
+                        detail = format!("{}: tool {} | library {}", k, got.get(k).map(gen::fmt_times).unwrap_or("missing".into()), gen::fmt_times(wv));
+                        break;
                     }
                 }
             }
